@@ -22,11 +22,10 @@ type Basic interface {
 	int8 | int16 | int32 | int64 | uint8 | uint16 | uint32 | uint64 | float32 | float64
 }
 
-// Prefix is the set of types usable as a length / count prefix.  The wire form is
-// always the unsigned integer of the type's width (a signed type token only fixes
-// the width).
+// Prefix is the set of types usable as a length / count prefix: the unsigned integers
+// (fin-protoc only accepts u8, u16, u32, u64 for the two prefix options).
 type Prefix interface {
-	int8 | int16 | int32 | int64 | uint8 | uint16 | uint32 | uint64
+	uint8 | uint16 | uint32 | uint64
 }
 
 // ---------------------------------------------------------------------------
@@ -148,11 +147,11 @@ func fromBits[T Basic](u uint64) T {
 func prefixWidth[P Prefix]() int {
 	var z P
 	switch any(z).(type) {
-	case int8, uint8:
+	case uint8:
 		return 1
-	case int16, uint16:
+	case uint16:
 		return 2
-	case int32, uint32:
+	case uint32:
 		return 4
 	default:
 		return 8
